@@ -12,6 +12,9 @@ def check(ctx):
     tr = os.path.join(ctx.scratch, "c06_live.ndjson")
     rc, err, events = lc.run_live(ctx, ["live-c06", 24 if thorough else 8, 400 if thorough else 120, tr])
     lc.crash_check(ctx, rc, err, "live-c06")
+    for e in events:
+        if e["ev"] == "cmd_stranded":
+            ctx.violation("caller-stranded", "SendActiveMessage(k=%s) had not returned 4 s after its time-out" % e.get("k"), {"kind": "live", "event": e})
     conns = lc.split_conns(events)
     lc.trace_conn(ctx, conns, "c06")
     if thorough:
